@@ -87,12 +87,29 @@ func drawC14(t *rapid.T) C14Case {
 	if !closed {
 		c.Ops = append(c.Ops, gen.Op{K: "C"})
 	}
+	capW, capAfter := 100<<10, 64<<10
+	if c.Set.Level >= 7 {
+		// deep hash-chain search: compress/flate drops to ~75 KB/s on low-entropy random data
+		capW, capAfter = 32<<10, 16<<10
+	}
+	if c.Set.delegatedP() && total > capW {
+		// the compressor is compress/flate's (10..20 MB/s at level 9) and every case is run once per fault
+		// position: keep the case's cost bounded by scaling the writes down, not by a time limit
+		scaled := 0
+		for i := range c.Ops {
+			if c.Ops[i].K == "W" {
+				c.Ops[i].N = c.Ops[i].N * capW / total
+				scaled += c.Ops[i].N
+			}
+		}
+		total = scaled
+	}
 	c.Data = gen.DrawRecipeN(t, total)
 	c.ErrKind = rapid.IntRange(0, 3).Draw(t, "errkind")
 	c.Short = rapid.SampledFrom([]int{0, 0, 1, 7, 100, 5000, -1}).Draw(t, "short")
 	if c.Set.Pkg == "gzip" && rapid.Bool().Draw(t, "gzhdr") {
 		// header strings and extra data are separate destination calls: faults can land between them
-		c.Set.Hdr = &GzHdr{Name: rapid.StringMatching(`[a-z]{1,12}`).Draw(t, "name"), Comment: rapid.StringMatching(`[a-z ]{1,12}`).Draw(t, "comment")}
+		c.Set.Hdr = &GzHdr{Name: rapid.StringMatching(`[a-z¡-ÿ]{1,12}`).Draw(t, "name"), Comment: rapid.StringMatching(`[a-z ¡-ÿ]{1,12}`).Draw(t, "comment")}
 		if rapid.Bool().Draw(t, "gzextra") {
 			c.Set.Hdr.HasX = true
 			c.Set.Hdr.Extra = []byte(rapid.StringMatching(`[a-z]{0,9}`).Draw(t, "extra"))
@@ -101,6 +118,17 @@ func drawC14(t *rapid.T) C14Case {
 	if rapid.IntRange(0, 2).Draw(t, "reset") == 0 {
 		h := drawHistory(t, c.Set, "after", false)
 		h.Hdr = nil
+		if n := h.Data.Len(); c.Set.delegatedP() && n > capAfter {
+			// same cost bound for the history replayed after every fault position
+			scaled := 0
+			for i := range h.Ops {
+				if h.Ops[i].K == "W" {
+					h.Ops[i].N = h.Ops[i].N * capAfter / n
+					scaled += h.Ops[i].N
+				}
+			}
+			h.Data = gen.DrawRecipeN(t, scaled)
+		}
 		c.After = &h
 	}
 	return c
@@ -155,7 +183,7 @@ func checkC14(c C14Case, record func(k int, nontrivial bool, labels []string)) (
 	var ks []int
 	if c.OnlyK > 0 {
 		ks = []int{c.OnlyK}
-	} else if N <= 64 {
+	} else if N <= 64 && !(c.Set.delegatedP() && len(data) > 16<<10) {
 		for k := 1; k <= N; k++ {
 			ks = append(ks, k)
 		}
@@ -178,7 +206,12 @@ func checkC14(c C14Case, record func(k int, nontrivial bool, labels []string)) (
 			cum += r.Calls
 			add(cum)
 		}
-		for k := 3; k <= N; k += N/40 + 1 {
+		stride := N/40 + 1
+		if c.Set.delegatedP() {
+			// compress/flate's compressor: fewer positions for large inputs (cost bound, see drawC14)
+			stride = N/6 + 1
+		}
+		for k := 3; k <= N; k += stride {
 			add(k)
 		}
 	}
